@@ -20,6 +20,7 @@ import "net"
 //vf:override os.Remove = github.com/hashicorp/serf/serf.vfRemove
 //vf:override os.Rename = github.com/hashicorp/serf/serf.vfRename
 //vf:override (*os.File).Write = github.com/hashicorp/serf/serf.vfFileWrite
+//vf:override (*os.File).WriteString = github.com/hashicorp/serf/serf.vfFileWriteString
 //vf:override (*os.File).Read = github.com/hashicorp/serf/serf.vfFileRead
 //vf:override (*os.File).Seek = github.com/hashicorp/serf/serf.vfFileSeek
 //vf:override (*os.File).Sync = github.com/hashicorp/serf/serf.vfFileSync
